@@ -385,14 +385,14 @@ Qed.
 
 Lemma api_set_property fl rf p v s s' r :
   WF (sg s) ->
-  (p = PName -> relabel_ok (sg s) (ref_id rf) (set_name v) = true) ->
+  (p = PName \/ p = PNames -> relabel_ok (sg s) (ref_id rf) (set_name v) = true) ->
   (p = PTypeNode -> relabel_ok (sg s) (ref_id rf) (set_typ v) = true) ->
   elem_set_property fl rf p v s = (s', r) -> WF (sg s').
 Proof.
   intros W HN HT H. unfold elem_set_property in H. destruct p.
   - apply bind_reads in H; [| destruct (fl_rename_check fl); solve [auto 8 with reads]].
     destruct H as [[s1 [u [Hm [Hg H]]]] | [e [Hr Hg]]]; [| rewrite Hg; exact W].
-    rewrite <- Hg in W. specialize (HN eq_refl). rewrite <- Hg in HN. clear Hg Hm.
+    rewrite <- Hg in W. specialize (HN (or_introl eq_refl)). rewrite <- Hg in HN. clear Hg Hm.
     peel H W. eapply api_update_node; eauto.
   - destruct rf; try (apply raise_inv in H as [-> _]; exact W);
       (eapply api_update_node; [exact W | | exact H]; apply relabel_ok_neutral; [exact W | intro n; auto]).
@@ -400,6 +400,10 @@ Proof.
   - eapply api_update_node; [exact W | | exact H]. apply relabel_ok_neutral; [exact W | intro n; destruct n; auto].
   - eapply api_update_node; [exact W | | exact H]. apply relabel_ok_neutral; [exact W | intro n; auto].
   - eapply api_update_node; eauto.
+  - apply bind_reads in H; [| destruct (fl_props_check fl); solve [auto 8 with reads]].
+    destruct H as [[s1 [u [Hm [Hg H]]]] | [e [Hr Hg]]]; [| rewrite Hg; exact W].
+    rewrite <- Hg in W. specialize (HN (or_intror eq_refl)). rewrite <- Hg in HN. clear Hg Hm.
+    peel H W. eapply api_update_node; eauto.
 Qed.
 
 Lemma api_unset_property rf p s s' r :
